@@ -1,7 +1,7 @@
 CONSTANTS
   Threads = {1, 2, 3, 4}
-  Entities = {"e1", "e2", "e3", "e4", "e5", "e6", "w1"}
-  WalEntities = {"w1"}
+  Entities = {"e1", "e2", "e3", "e4", "e5", "e6", "w1", "w2"}
+  WalEntities = {"w1", "w2"}
   NewEntities = {}
   MaxOps = 1000000
   Ops = {"ok", "noop", "reject", "presave_fail", "cond", "read", "fread", "snap", "lsnap", "add", "hist", "list"}
